@@ -25,6 +25,11 @@ const (
 		"................................" + // 0xa0
 		"................................" + // 0xc0
 		"................................" //   0xe0
+
+	// maxDirParam is the limit for the absolute value of a numeric directive
+	// parameter (a column, width or repeat count). No string can be longer
+	// than array-dimension-limit.
+	maxDirParam = slip.ArrayMaxDimension
 )
 
 var (
@@ -148,7 +153,13 @@ func (c *control) readDir() {
 		case '#':
 			params = append(params, len(c.args)-c.argPos)
 		case 'v':
-			params = append(params, c.nextArg())
+			p := c.nextArg()
+			if n, ok := p.(slip.Integer); ok {
+				if !n.IsInt64() || n.Int64() < -maxDirParam || maxDirParam < n.Int64() {
+					c.paramTooLarge()
+				}
+			}
+			params = append(params, p)
 		case '\'':
 			// The character after the quote is the parameter even if it
 			// is a directive, modifier, or separator character.
@@ -162,6 +173,9 @@ func (c *control) readDir() {
 			c.pos--
 			p := c.readParam()
 			if n, err := strconv.ParseInt(string(p), 10, 64); err == nil {
+				if n < -maxDirParam || maxDirParam < n {
+					c.paramTooLarge()
+				}
 				params = append(params, int(n))
 			} else {
 				slip.ErrorPanic(c.scope, 0, "invalid directive at %d of %q. %s", c.pos-1, c.str, err)
@@ -1776,6 +1790,11 @@ func (c *control) objAsList(obj slip.Object, loc string) (list slip.List) {
 
 func (c *control) invalidDir(buf []byte, pos int) {
 	slip.ErrorPanic(c.scope, 0, "invalid directive at %d of %q", pos-1, buf)
+}
+
+func (c *control) paramTooLarge() {
+	slip.ErrorPanic(c.scope, 0, "directive parameter at %d of %q is not between -%d and %d",
+		c.pos-1, c.str, maxDirParam, maxDirParam)
 }
 
 func (c *control) invalidDirParam(buf []byte, pos int) {
